@@ -74,7 +74,7 @@ def make_case(idx, seed):
             return rng.choice(["(and (< 0.0 x) (< x 1.0))", "(= (* 2.0 x) 1.0)", f"({op} (+ y z) {N(rng.randint(-3, 3))})",
                                "(= (* 2 y) 1)", "(< (+ x w) 0.5)", "(and (< 0 y) (< y 1))"])
         if kind == "mixed":
-            return rng.choice(["(< (+ x y) 1)", "(= x y)", "(< (to_real x) y)", "(= (+ x 0.5) y)", "(< x 1.5)", "(and (< 0 x) (< x 1))",
+            return rng.choice(["(< (+ x y) 1)", "(= x y)", "(= (+ x 0.5) y)", "(< x 1.5)", "(and (< 0 x) (< x 1))",
                                "(= (* 2 z) 1)", "(< (- y w) 0.5)"])
         if kind == "uf-arith":
             return rng.choice(["(< x y)", "(= (+ x 1) y)", "(= x y)", "(distinct x y z)", "(<= (- x y) 2)"])
@@ -163,7 +163,9 @@ def run(tier):
         if r["answers"]:
             chk.cov["traces_validated_against_impl"] += 1
         for pr in r["problems"][:1]:
-            ext = extsolve.z3_run(extsolve.strip_options(c["script"]), 10).split()
+            import re as _re
+            ext = extsolve.z3_run(_re.sub(r"\(set-logic [A-Z_]+\)", "(set-logic ALL)", extsolve.strip_options(c["script"])), 10).split()
+            ext = [x for x in ext if x in ("sat", "unsat", "unknown")]
             chk.violation("out-of-logic", f"{pr['what']} ({c['logic']}, {c['kind']}); z3 on the same script: {ext[:6]}",
                           {"script": c["script"], "problem": pr, "impl_stdout": r["stdout"]}, match_key=classify(pr, c))
     chk.assumptions = ["`correct` is judged by certification of the answer, not by comparison with another solver: an unsat trace the "
@@ -174,4 +176,8 @@ def run(tier):
 
 
 def classify(pr, case):
+    """known findings are identified by the input family: a difference logic given an atom that is not a difference
+    constraint (the solver reads the atom without checking its shape)"""
+    if case["kind"].startswith("dl-") and pr.get("kind") in ("sat", "unsat"):
+        return "dl-atom-shape-unchecked"
     return None
